@@ -552,7 +552,13 @@ func checkC05C06C07(h *History, sc *ScanCtx, g *GroupCtx, r *Report) {
 			}
 			r.Covered("C05", sig)
 			r.Sample("C05", fmt.Sprintf("case %s scan %d: U=%d T=%d cpuReq=%v cpuCap=%v threshold=%d need>=%d: untainted %d + requested %d", h.Case, sc.Rec.No, U, T, p.CPUReq, p.CPUCap, g.Cfg.ScaleUp, need.lo, untaints, reqReal))
-			if !clamped && broughtCache < need.lo {
+			floatRes := false
+			if cs, ms, eq := oracle.EqualSize(g.View.Untainted); eq && broughtCache >= 1 {
+				floatRes = oracle.WithinFloatResolution(p.CPUReq, p.MemReq, cs, ms, g.Cfg.ScaleUp, U+broughtCache)
+			}
+			if !clamped && broughtCache < need.lo && floatRes {
+				r.DC("C05", "insufficient by less than 1e-12 relative (float64 resolution)")
+			} else if !clamped && broughtCache < need.lo {
 				r.Violate("C05", "scale-up-insufficient", "group %s: %d nodes brought into service (untainted %d + requested %d) but %d are needed to sit at or below %d%% (cpu %v/%v mem %v/%v, U=%d)",
 					g.Cfg.Name, broughtCache, untaints, reqReal, need.lo, g.Cfg.ScaleUp, p.CPUReq, p.CPUCap, p.MemReq, p.MemCap, U)
 			}
